@@ -84,7 +84,7 @@ fn gen_tree(rng: &mut Rng, parent: &Handle, depth: usize, budget: &mut usize) {
         }
         *budget -= 1;
         if !last_text && rng.chance(2, 5) {
-            let mut t = hostile(rng, 4);
+            let mut t = if rng.chance(1, 60) { crate::big::long_run(rng, 9000, &["&", "<", ">", "\"", "\u{a0}", "&amp;", "</div>", "\u{c2}"]) } else { hostile(rng, 4) };
             if k == 0 && depth == 0 && rng.chance(1, 8) {
                 t.insert(0, '\u{feff}');
             }
@@ -98,7 +98,7 @@ fn gen_tree(rng: &mut Rng, parent: &Handle, depth: usize, budget: &mut usize) {
             let mut names = ATTR_NAMES.to_vec();
             rng.shuffle(&mut names);
             for name in names.iter().take([0, 0, 1, 1, 2, 3][rng.below(6)]) {
-                attrs.push((name.to_string(), if rng.chance(1, 6) { String::new() } else { hostile(rng, 3) }));
+                attrs.push((name.to_string(), if rng.chance(1, 6) { String::new() } else if rng.chance(1, 60) { crate::big::long_run(rng, 9000, &["&", "<", ">", "\"", "'", "\u{a0}", "&quot;"]) } else { hostile(rng, 3) }));
             }
             let name = if rng.chance(1, 3) { let v = ordinary_atom_names(); v[rng.below(v.len())] } else { rng.pick_s(SAFE) };
             let e = elem(NS_HTML, name, attrs);
@@ -212,6 +212,35 @@ fn check_inner_outer(e: &Handle, scripting: bool, st: &mut Stats) -> Option<(Str
     if outer != want {
         let kind = if name.ns != markup5ever::ns!(html) { "foreign-parent" } else { "html-parent" };
         return Some((format!("inner-outer:{kind}"), format!("<{}:{}> scripting={scripting}: outer {} != start+inner+end {}", crate::drive::short_ns(&name.ns), name.local, show(&outer), show(&want))));
+    }
+    // composition: the inner serialization is the concatenation of the children's own serializations
+    // (element children: their outer serialization; text: unescaped only when THIS element is an HTML
+    // raw-text element, escaped otherwise; comments verbatim). An element's text is therefore escaped
+    // according to its own parent, whatever encloses that parent.
+    let html = name.ns == markup5ever::ns!(html);
+    if is_void || (html && matches!(&*name.local, "template" | "pre" | "textarea" | "listing")) {
+        return None;
+    }
+    let raw_here = html && (RAW.contains(&&*name.local) || (&*name.local == "noscript" && scripting));
+    let mut composed = String::new();
+    for c in e.children.borrow().iter() {
+        match &c.data {
+            NodeData::Element { .. } => composed.push_str(&ser(c, TraversalScope::IncludeNode, scripting).ok()?),
+            NodeData::Text { contents } => {
+                let t = contents.borrow();
+                if raw_here {
+                    composed.push_str(&t)
+                } else {
+                    composed.push_str(&escape5(&t))
+                }
+            },
+            NodeData::Comment { contents } => composed.push_str(&format!("<!--{}-->", &**contents)),
+            _ => return None,
+        }
+    }
+    st.count("elements_checked_composition");
+    if composed != inner {
+        return Some(("composition".into(), format!("<{}:{}> scripting={scripting}: inner serialization {} is not the concatenation of its children's serializations {}", crate::drive::short_ns(&name.ns), name.local, show(&inner), show(&composed))));
     }
     None
 }
